@@ -328,29 +328,30 @@ def generate(ctx, win, lp, lq, lr):
 ALL_SPELLS = tuple(range(14))                    # Paths!Spell numbers 0..NSpell
 
 
-def generate_spelled(ctx, win, lp, lq, lr, names, longq=(), spells=ALL_SPELLS):
-    """Folders as spelled, from TLC (Gen_PathsSpell): {sep: [(F, q, G, k)]} with F = Spell(join(p), k), G = Spell(join(r), k)
-    for the folder names p, r over `names` within the bounds, both separators."""
-    key = ("spelled", win, lp, lq, lr, tuple(names), tuple(longq), tuple(spells))
+def generate_spelled(ctx, lp, lq, lr, names, shortq, longq=(), spells=ALL_SPELLS, win_names=(), win_q=(8,)):
+    """Folders as spelled, from TLC (Gen_PathsSpell): {(sep, win): [(F, q, G, k)]} with F = Spell(join(p), k),
+    G = Spell(join(r), k) for the folder names p, r over `names` within the bounds; both separators, with / without drives."""
+    key = ("spelled", lp, lq, lr, tuple(names), tuple(shortq), tuple(longq), tuple(spells), tuple(win_names), tuple(win_q))
     if key not in _gen_cache:
         sets = lambda xs: "{%s}" % ", ".join(str(x) for x in xs)       # noqa: E731
-        name = "Gen_PathsSpell_%d_%d%d%d_%s_%s_%s.cfg" % (win, lp, lq, lr, "".join(map(str, names)), "".join(map(str, longq)),
-                                                        "-".join(map(str, spells)))
+        name = "Gen_PathsSpell_%d.cfg" % (len(_gen_cache) + 1)
         cfg = tc.gen_cfg(ctx, name,
-                         "CONSTANTS\n Seps = {1, 2}\n Cases = {TRUE}\n Wins = {%s}\n Wins2 = {}\n LP = %d\n LQ = %d\n LR = %d\n"
-                         " NameChars = %s\n LongQ = %s\n Spells = %s\n"
+                         "CONSTANTS\n Seps = {1, 2}\n Cases = {TRUE}\n Wins = {TRUE, FALSE}\n Wins2 = {}\n LP = %d\n LQ = %d\n LR = %d\n"
+                         " NameChars = %s\n WinNames = %s\n WinQ = %s\n ShortQ = %s\n LongQ = %s\n Spells = %s\n"
                          "SPECIFICATION SpellSpec\nINVARIANT Emit\nCHECK_DEADLOCK FALSE\n"
-                         % ("TRUE" if win else "FALSE", lp, lq, lr, sets(names), sets(longq), sets(spells)))
-        res = ctx.tlc("Gen_PathsSpell", cfg, what="enumerate folders as spelled: names over %s |p|<=%d |q|<=%d |r|<=%d, spellings %s%s"
-                      % (s2p(names), lp, lq, lr, list(spells), " with ':'" if win else ""), workers=1, count=False, heap="3g")
+                         % (lp, lq, lr, sets(names), sets(win_names), sets(win_q), sets(shortq), sets(longq), sets(spells)))
+        res = ctx.tlc("Gen_PathsSpell", cfg, what="enumerate folders as spelled: %s" % fam_text((lp, lq, lr, names, shortq, longq, spells)),
+                      workers=1, count=False, heap="3g")
         if not res.ok:
             raise MachineryError("spelled-folder generator failed\n" + res.tail())
-        out = {1: [], 2: []}
-        for sep, fs, q, gs, k in tc.parse_histories(res):
-            out[sep].append((fs, q, gs, k))
-        if not out[1] or len(out[1]) != len(out[2]) or len({(tuple(a), tuple(b), tuple(c)) for a, b, c, _ in out[1]}) != len(out[1]):
-            raise MachineryError("spelled-folder generator printed %d / %d inputs for the two separators (or repeated one)"
-                                 % (len(out[1]), len(out[2])))
+        out = {(sep, win): [] for sep in (1, 2) for win in (0, 1)}
+        for sep, win, fs, q, gs, k in tc.parse_histories(res):
+            out[(sep, win)].append((fs, q, gs, k))
+        for win in (0, 1):
+            one, two = out[(1, win)], out[(2, win)]
+            if not one or len(one) != len(two) or len({(tuple(x), tuple(y), tuple(z)) for x, y, z, _ in one}) != len(one):
+                raise MachineryError("spelled-folder generator printed %d / %d inputs for the two separators (or repeated one)"
+                                     % (len(one), len(two)))
         _gen_cache[key] = out
     return _gen_cache[key]
 
@@ -467,7 +468,6 @@ def show_res(v):
 # ---- the check -------------------------------------------------------------------------------------------------------
 MC_QUICK = [("MC_Paths.cfg", "design: all laws, 8 conventions, |p|<=2 |q|<=1"),
             ("MC_PathsX.cfg", "design: translation laws, 64 convention pairs, root |p|<=1 vs bare root, relative part |q|<=1"),
-            ("MC_PathsS.cfg", "design: folder laws on folders as spelled, 8 conventions, raw folder |p|<=2, |q|<=1, raw new folder |r|<=1"),
             ("MC_PathsSK.cfg", "design: folder laws on the 14 re-spellings of join(p), join(r), 4 conventions, |p|,|q|,|r|<=1"),
             ("MC_PathsY.cfg", "design: translation laws, roots as spelled (14 re-spellings of join(p) vs of the bare root), 16 convention pairs")]
 MC_THOROUGH = [("MC_PathsU.cfg", "design: unary laws, 8 conventions, |p|<=4"),
@@ -480,22 +480,26 @@ MC_THOROUGH = [("MC_PathsU.cfg", "design: unary laws, 8 conventions, |p|<=4"),
 def bounds(tier):
     """U: |p|; B: (|p|, |q|); T: (|p|, |q|, |r|); XALL: (|r0|, |q|, |r1|) for all 64 ordered pairs of configurations;
     XDEEP: further bounds for the 16 pairs (same configuration, opposite configuration);
-    S: folders as spelled, [(lp, lq, lr, folder name characters, characters of relative parts longer than 1, spelling numbers)];
-    YONE: one root as spelled against the bare root of the other side, 16 pairs (same: side 0 spelled; opposite: either side);
-    YBOTH: both roots as spelled (the same spelling number), all 64 pairs."""
-    a, A, dot, sl, bs = CODE["a"], CODE["A"], CODE["."], CODE["/"], CODE["\\"]
+    S: folders as spelled, [(lp, lq, lr, folder name characters, characters of one-character relative parts, of longer ones,
+    spelling numbers, further name characters where win_paths is on)] - arguments of generate_spelled;
+    YONE: one root as spelled against the bare root of the other side, 16 pairs (same: side 0 spelled; opposite: either side),
+    [(lp, lq, ...)]; YBOTH: both roots as spelled (the same spelling number), all 64 pairs, [(lp, lq, lr, ...)]."""
+    a, A, dot, sl, bs, ea, colon = (CODE[x] for x in "aA./\\é:")
+    every = tuple(range(1, 8))
     if tier == "quick":
         return dict(U=4, B=(2, 2), T=(1, 1, 1), XALL=(1, 1, 0), XDEEP=[(1, 1, 1), (1, 2, 0), (0, 2, 1)], nlong=40, mc=MC_QUICK,
-                    S=[(3, 1, 0, (a, A), (), ALL_SPELLS), (1, 1, 1, (a, A), (), (1, 2, 3, 7, 12, 13))],
-                    YONE=[(1, 1, (a, A), (), (1, 2, 3, 6, 7, 12, 13))], YBOTH=[])
+                    S=[(3, 1, 0, (a, A), (sl, bs, a, A, ea), (), ALL_SPELLS), (1, 1, 1, (a, A), (sl, bs, a, A, ea), (), (1, 2, 3, 7, 12, 13))],
+                    YONE=[(1, 1, (a, A), (sl, bs, a, A, ea), (), (1, 2, 3, 6, 7, 12, 13))], YBOTH=[])
     return dict(U=5, B=(3, 2), T=(2, 2, 1), XALL=(1, 1, 1), XDEEP=[(1, 2, 1), (2, 1, 1)], nlong=400, mc=MC_QUICK + MC_THOROUGH,
-                S=[(3, 3, 0, (a, A, dot), (sl, bs, a, A), ALL_SPELLS), (2, 1, 1, (a, A, dot), (), ALL_SPELLS)],
-                YONE=[(1, 2, (a, A), (sl, bs, a, A), ALL_SPELLS)], YBOTH=[(1, 1, 1, (a, A), (), ALL_SPELLS)])
+                S=[(3, 3, 0, (a, A, dot), every, (sl, bs, a), ALL_SPELLS, (colon,)), (2, 1, 1, (a, A, dot), every, (), ALL_SPELLS, (colon,))],
+                YONE=[(1, 2, (a, A), every, (sl, bs, a, A), ALL_SPELLS)], YBOTH=[(1, 1, 1, (a, A), every, (), ALL_SPELLS)])
 
 
 def fam_text(f):
-    *lens, names, longq, spells = f
-    return "(%s, %r, %r, %s)" % (", ".join(map(str, lens)), s2p(names), s2p(longq), "all" if tuple(spells) == ALL_SPELLS else list(spells))
+    lens = [x for x in f if isinstance(x, int)]
+    names, shortq, longq, spells = [x for x in f if not isinstance(x, int)][:4]
+    return "(|.|<=%s, names %r, short q %r, long q %r, spellings %s)" % (
+        "/".join(map(str, lens)), s2p(names), s2p(shortq), s2p(longq), "all" if tuple(spells) == ALL_SPELLS else list(spells))
 
 
 def partner(c):
@@ -520,31 +524,19 @@ def plan(b):
 
 
 def spelled_families(b):
-    """The Gen_PathsSpell runs needed: argument tuples of generate_spelled (win_paths on: ':' joins the name characters when the
-    family has more than two of them, so that drive folders are re-spelled too)."""
-    colon = lambda win, names: tuple(names) + ((CODE[":"],) if win and len(names) > 2 else ())     # noqa: E731
-    fams = set()
-    for win in (0, 1):
-        for lp, lq, lr, names, longq, spells in b["S"]:
-            fams.add((win, lp, lq, lr, colon(win, names), tuple(longq), tuple(spells)))
-        for lp, lq, names, longq, spells in b["YONE"]:
-            fams.add((win, lp, lq, 0, colon(win, names), tuple(longq), tuple(spells)))
-        for lp, lq, lr, names, longq, spells in b["YBOTH"]:
-            fams.add((win, lp, lq, lr, colon(win, names), tuple(longq), tuple(spells)))
-    return sorted(fams)
+    """The Gen_PathsSpell runs needed: argument tuples of generate_spelled."""
+    return sorted({tuple(f) for f in b["S"]} | {(lp, lq, 0) + tuple(rest) for lp, lq, *rest in b["YONE"]} | {tuple(f) for f in b["YBOTH"]})
 
 
 def spelled_cases(ctx, b):
     """Cases on folders as spelled: S for the 8 configurations, Y for pairs of configurations.  Every folder / root string
     comes from TLC (Gen_PathsSpell) and is used exactly as printed; the un-spelled root of the other side of a YONE case is
     that side's separator (as in CloudSync(roots=(sep, sep)))."""
-    colon = lambda win, names: tuple(names) + ((CODE[":"],) if win and len(names) > 2 else ())     # noqa: E731
     S, Y = [], []
     for t in CONVS:
         seen = set()
-        for lp, lq, lr, names, longq, spells in b["S"]:
-            fam = generate_spelled(ctx, t[2], lp, lq, lr, colon(t[2], names), longq, spells)
-            for fs, q, gs, _k in fam[t[0]]:
+        for f in b["S"]:
+            for fs, q, gs, _k in generate_spelled(ctx, *f)[(t[0], t[2])]:
                 key = (tuple(fs), tuple(q), tuple(gs))
                 if key not in seen:
                     seen.add(key)
@@ -560,16 +552,15 @@ def spelled_cases(ctx, b):
                     seen.add(key)
                     Y.append({"kind": "Y", "c": conv(ta), "c2": conv(tb), "p": r0, "q": q, "r": r1})
             if tb == ta or tb == partner(ta):
-                for lp, lq, names, longq, spells in b["YONE"]:
-                    fam = generate_spelled(ctx, win, lp, lq, 0, colon(win, names), longq, spells)
-                    for fs, q, _gs, _k in fam[ta[0]]:
+                for lp, lq, *rest in b["YONE"]:
+                    fam = generate_spelled(ctx, lp, lq, 0, *rest)
+                    for fs, q, _gs, _k in fam[(ta[0], win)]:
                         add(fs, q, [tb[0]])
                     if tb != ta:         # (same configuration on both sides: the mirror image of the above)
-                        for fs, q, _gs, _k in fam[tb[0]]:
+                        for fs, q, _gs, _k in fam[(tb[0], win)]:
                             add([ta[0]], q, fs)
-            for lp, lq, lr, names, longq, spells in b["YBOTH"]:
-                fam = generate_spelled(ctx, win, lp, lq, lr, colon(win, names), longq, spells)
-                for fs, q, gs, _k in fam[ta[0]]:
+            for f in b["YBOTH"]:
+                for fs, q, gs, _k in generate_spelled(ctx, *f)[(ta[0], win)]:
                     add(fs, q, gs)
     return S, Y
 
@@ -646,11 +637,10 @@ def run(ctx):
              "pairs of configurations, and <= %s for the 16 pairs (same, opposite)" % (b["XALL"], " / ".join(map(str, b["XDEEP"]))),
         "S": "folder laws on folders AS SPELLED (Paths!Spell numbers: 0 as join writes it, 1-5 separators at the end, 6-8 alternate "
              "separators throughout, 9-11 doubled inside, 12 doubled in front, 13 everything doubled): folder F = Spell(join(p), k), "
-             "new folder G = Spell(join(r), k), relative part q; 8 configurations; (|p|, |q|, |r|, name characters, characters of "
-             "longer relative parts, spelling numbers) = %s" % " / ".join(fam_text(f) for f in b["S"]),
+             "new folder G = Spell(join(r), k), relative part q; 8 configurations; %s (':' added to one-character relative parts, "
+             "in the thorough tier also to the names, where win_paths is on)" % " / ".join(fam_text(f) for f in b["S"]),
         "Y": "translation with the roots AS SPELLED: one root Spell(join(p), k) against the bare root of the other side for the 16 "
-             "pairs (same, opposite) with (|p|, |q|, names, longer relative parts, spellings) = %s; both roots re-spelled for all "
-             "64 pairs with %s" % (" / ".join(fam_text(f) for f in b["YONE"]) or "-", " / ".join(fam_text(f) for f in b["YBOTH"]) or "-")}
+             "pairs (same, opposite) with %s; both roots re-spelled for all 64 pairs with %s" % (" / ".join(fam_text(f) for f in b["YONE"]) or "-", " / ".join(fam_text(f) for f in b["YBOTH"]) or "-")}
     ctx.extra["exhaustive_cases"] = {k: len(v) for k, v in by_kind.items()}
     ctx.cov["exhaustive"] = True
     ctx.sample({"kind": "U", "convention": show_conv(by_kind["U"][100]["c"]), "p": s2p(by_kind["U"][100]["p"])})
